@@ -271,8 +271,11 @@ def gen_nd():
         2: [(None, None), (-1, None), (0, 1), 1],
     }
     for a in one[4]:
+        yield (n[:2], (a,))  # index tuples shorter than the array rank apply to the LEADING axes (numpy semantics)
+        yield (n, (a,))
         for b in one[3]:
             yield (n[:2], (a, b))
+            yield (n, (a, b))
             for c in one[2]:
                 yield (n, (a, b, c))
 
@@ -281,18 +284,22 @@ def run_nd(case):
     n, enc = case
     roi = tuple(S(e) for e in enc)
     X = np.arange(int(np.prod(n))).reshape(n)
-    r = R(outcome=f"nd{len(n)}")
+    short = len(roi) < len(n)
+    r = R(outcome=f"nd{len(n)}" + (f":short{len(roi)}" if short else ""))
     want = X[roi]
     nr = M.roi_normalise(roi, n)
+    if len(nr) != len(roi):
+        return r.fail("roi_normalise:nd:rank", f"{roi} on {n} -> {nr}")
     got = X[nr]
+    tag = ":short-tuple" if short else ""
     # integer indices become length-1 slices: compare as flat element lists
     if got.reshape(-1).tolist() != want.reshape(-1).tolist():
-        r.fail("roi_normalise:nd", f"{roi} on {n} -> {nr}")
-    if M.roi_shape(nr) != got.shape:
-        r.fail("roi_shape:nd", f"{nr}: {M.roi_shape(nr)} vs {got.shape}")
+        r.fail("roi_normalise:nd" + tag, f"{roi} on {n} -> {nr}: selects {got.shape} elements, original selects {want.shape}")
+    if M.roi_shape(nr) != got.shape[: len(nr)]:
+        r.fail("roi_shape:nd" + tag, f"{nr}: {M.roi_shape(nr)} vs {got.shape}")
     if M.roi_is_empty(nr) != (got.size == 0):
-        r.fail("roi_is_empty:nd", f"{nr}")
-    if M.roi_is_full(nr, n) != (got.shape == X.shape):
+        r.fail("roi_is_empty:nd" + tag, f"{nr}")
+    if not short and M.roi_is_full(nr, n) != (got.shape == X.shape):
         r.fail("roi_is_full:nd", f"{nr} {n}: {M.roi_is_full(nr, n)}")
     return r
 
@@ -336,7 +343,17 @@ def run_pts(case):
     big = any(abs(v) >= 2**31 - 64 for p in fin for v in p)
     huge = any(abs(v) >= 2.0**62 for p in fin for v in p)
     r = R(outcome=f"fin{len(fin)}:{'huge' if huge else 'big' if big else 'small'}:pad{min(padding, 3)}:al{align}", nontrivial=len(fin) > 0)
+    xy0 = xy.copy()
     got = M.roi_from_points(xy, shape, padding=padding, align=align)
+    if not np.array_equal(xy, xy0, equal_nan=True):
+        r.fail("roi_from_points:input-array-modified", f"{case}: caller's points changed to {xy.tolist()}")
+    # history: the same array is used again for a larger image; the answer must be the one a fresh copy gives
+    shape2 = (ny * 3 + 1, nx * 2 + 5)
+    again = M.roi_from_points(xy, shape2, padding=padding, align=align)
+    fresh = M.roi_from_points(xy0.copy(), shape2, padding=padding, align=align)
+    if again != fresh:
+        r.fail("roi_from_points:history-dependent", f"{case}: second call on the same array for image {shape2} gives {again}, "
+                                                     f"a fresh copy of the points gives {fresh}")
     if not fin:
         if got != (slice(0, 0), slice(0, 0)):
             r.fail("roi_from_points:nonfinite", f"{pts} -> {got}")
